@@ -2,3 +2,9 @@
 import Sftp.Prim
 import Sftp.Props.C17
 import Sftp.Props.C09
+import Sftp.Props.C10Path
+import Sftp.Props.C16
+import Sftp.Props.C15
+import Sftp.Props.C02
+import Sftp.Props.C14
+import Sftp.Props.Known.C02
